@@ -64,7 +64,7 @@ def run(prog: Program, rep: Report, tier: str):
         rows = C.handlers(prog, d)
         api = C.DIRS[d][0]
         by = {r.pred_name: r for r in rows}
-        for pred, wantnoop in (("isunresolvable", True), ("isnonetype", d == "marshal")):
+        for pred, wantnoop in (("isunresolvable", True), ("isnonetype", False)):
             r = by.get(pred)
             ok = r is not None and r.routine is not None
             if ok and wantnoop:
